@@ -7,7 +7,10 @@ import z3
 
 from .scalar import PathAbort, Unsupported, is_sym, _pybool
 
-RLIMIT = 0  # 0 = unlimited; set by the framework (machine independent z3 resource limit per query)
+import os
+
+RLIMIT = int(os.environ.get("VERIF_RLIMIT", "0"))  # z3 resource limit per query (machine independent); 0 = none
+TIMEOUT_MS = int(os.environ.get("VERIF_QUERY_TIMEOUT_MS", "120000"))  # wall-clock guard per query: exceeded = inconclusive, never a pass
 
 
 class Inconclusive(Exception):
@@ -34,6 +37,8 @@ class Explorer:
         self.solver = z3.Solver()
         if RLIMIT:
             self.solver.set("rlimit", RLIMIT)
+        if TIMEOUT_MS:
+            self.solver.set("timeout", TIMEOUT_MS)
         self.trace, self.pc, self.obligations = [], [], []
         self.fresh = 0
         from . import dist
